@@ -24,13 +24,19 @@
                            on resume the files are taken for a ResidualSampleList (the real loader
                            then raises KeyError; the [orig] model only records the stale file)
 
+     fix_mh      (C27-5)   _minisanity: mh = {...} if iglobal == 0 or not _pickle_values_exist(iglobal - 1, ..)
+                 orig:     mh = {...} only if iglobal == 0, otherwise _pickle_load_values(iglobal - 1, ..)
+                           => initial_index > 0 with a fresh output directory raises FileNotFoundError
+                           (which of the two forms the CURRENT source has is read from the source on
+                           every run: tr/c27_variant.py -> Gen_Variant.v : head_variant)
+
    Source lines are quoted next to the definitions. *)
 From Coq Require Import List Bool Arith Lia.
 Import ListNotations.
 
-Record variant := mkVar { fix_pop : bool; fix_iglobal : bool; fix_global : bool; fix_mean : bool }.
-Definition fixed : variant := mkVar true true true true.
-Definition orig : variant := mkVar false false false false.
+Record variant := mkVar { fix_pop : bool; fix_iglobal : bool; fix_global : bool; fix_mean : bool; fix_mh : bool }.
+Definition fixed : variant := mkVar true true true true true.
+Definition orig : variant := mkVar false false false false false.
 
 (* ---- files (relative to the output directory) ---- *)
 Inductive fname := Latest | Iter (i : nat).          (* _file_name_by_strategy *)
@@ -99,7 +105,7 @@ Record env := mkEnv {
 Inductive error := EValue | EAssert | EUnbound | ENotFound | EOther.
 
 Inductive action :=
-| APush (i : nat) | APop
+| APush (i src : nat) | APop        (* push_sseq(sseqs[i]); sseqs[i] is child number src of spawn_sseq(total) *)
 | ATransition (i : nat)                 (* t(sl) applied *)
 | AMinimise (i n : nat)                 (* minimizer(e) with n = 0 (EnergyAdapter) or n_samples (SampledKLEnergy) *)
 | AInspect (i depth : nat)              (* inspect_callback called; RNG stack depth at that moment *)
@@ -143,7 +149,18 @@ Definition set_depth (d : nat) (s : lstate) : lstate :=
 Definition set_sl (n : nat) (r : bool) (s : lstate) : lstate :=
   mkL (depth s) (acts s) (files s) (foreign s) n r.
 
-Definition push (i : nat) (s : lstate) : lstate := act (APush i) (set_depth (S (depth s)) s).
+(* sseqs = spawn_sseq(total_iterations)
+   for iglobal in range(total_iterations):
+       if not fresh_stochasticity(iglobal): ... sseqs[iglobal] = <copy of sseqs[iglobal-1]>
+   (the loop starts at 0 whatever initial_index / the resume point is): sseqs[i] is the child of the
+   last iteration <= i with fresh stochasticity *)
+Fixpoint src_of (f : nat -> bool) (i : nat) : nat :=
+  match i with
+  | O => O
+  | S k => if f (S k) then S k else src_of f k
+  end.
+
+Definition push (i j : nat) (s : lstate) : lstate := act (APush i j) (set_depth (S (depth s)) s).
 Definition pop (s : lstate) : lstate := act APop (set_depth (pred (depth s)) s).
 
 Fixpoint write_samples (f : fname) (n : nat) (s : lstate) : lstate :=
@@ -165,7 +182,7 @@ Definition save_sl (v : variant) (f : fname) (s : lstate) : lstate :=
 
 (* push_sseq(sseqs[iglobal]);  t = transitions(iglobal); mean = mean if t is None else t(sl) *)
 Definition enter (o : opts) (i : nat) (s : lstate) : lstate :=
-  let s := push i s in if trans o i then act (ATransition i) s else s.
+  let s := push i (src_of (fresh o) i) s in if trans o i then act (ATransition i) s else s.
 
 (* if n_samples(iglobal) == 0: e = EnergyAdapter(...); e, _ = minimizer(e); sl = SampleList([mean])
    else: e = SampledKLEnergy(...); e, _ = minimizer(e); sl = e.samples.at(mean)     [2 n mirrored samples] *)
@@ -195,7 +212,8 @@ Definition save_block (v : variant) (o : opts) (i : nat) (s : lstate) : lstate :
 (* _minisanity(lh, iglobal, sl, comm, plot_minisanity_history):
      _report_to_logger_and_file(s, "minisanity.txt", ...)   [file only if _output_directory is not None]
      if _MPI_master(..) and _output_directory is not None:
-         mh = {...} if iglobal == 0 else _pickle_load_values(iglobal - 1, 'minisanity_history')
+         mh = {...} if iglobal == 0 [or not _pickle_values_exist(iglobal - 1, ..)]
+              else _pickle_load_values(iglobal - 1, 'minisanity_history')
          ...; _pickle_save_values(iglobal, 'minisanity_history', mh)
          if plot_minisanity_history: _plot_minisanity_history(iglobal, mh)
    if output_directory is not None and _MPI_master(..): _save_last_finished_index(iglobal)
@@ -206,7 +224,7 @@ Definition report_block (v : variant) (o : opts) (e : env) (i : nat) (s : lstate
     let s := gwrite o FMinisanityTxt s in
     (* (orig only) the content of a stale directory is unknown: assumed present *)
     let present := if outdir o then has (files s) (FMinisanityHist (fn o (pred i))) else true in
-    if negb (i =? 0) && negb present then Err ENotFound else
+    if negb (i =? 0) && negb present && negb (fix_mh v) then Err ENotFound else
     let s := gwrite o (FMinisanityHist (gfn o e i)) s in
     let s := if plot_m o then gwrite o (FMinisanityPlot (gfn o e i)) s else s in
     let s := if outdir o then write FLast s else s in
@@ -349,18 +367,13 @@ Definition valid (o : opts) (e : env) : Prop :=
      has (files0 e) FRandomState = true /\ has (files0 e) (FEnergyHist (fn o l)) = true /\
      has (files0 e) (FMinisanityHist (fn o l)) = true /\
      (has (files0 e) (FMean (fn o l)) = true \/
-      count_samples (files0 e) (fn o l) 0 (length (files0 e)) = 1)) /\
-  (* a positive initial_index with an output directory continues the numbering of an earlier call
-     into the same directory ("May be used if optimize_kl is called multiple times"): the
-     minisanity history of iteration initial_index - 1 is there *)
-  (outdir o = true -> init_index o <> 0 ->
-     (resume o = true -> last0 e = None) ->
-     has (files0 e) (FMinisanityHist (fn o (pred (init_index o)))) = true).
+      count_samples (files0 e) (fn o l) 0 (length (files0 e)) = 1)).
 
 (* ---- observation helpers for the correspondence ---- *)
 Definition action_eqb (a b : action) : bool :=
   match a, b with
-  | APush i, APush j | ATransition i, ATransition j => Nat.eqb i j
+  | ATransition i, ATransition j => Nat.eqb i j
+  | APush i n, APush j m => Nat.eqb i j && Nat.eqb n m
   | APop, APop => true
   | AMinimise i n, AMinimise j m | AInspect i n, AInspect j m => Nat.eqb i j && Nat.eqb n m
   | ATerminate i b1, ATerminate j b2 => Nat.eqb i j && Bool.eqb b1 b2
